@@ -246,12 +246,27 @@ namespace hv
                         jesc(o, vstr(v));
                     }
                 }
+                o += "],\"times\":[";
+                try
+                {
+                    auto dv = w.data_view();
+                    for (std::size_t i = 0; i < dv.size(); ++i)
+                    {
+                        if (i) o += ',';
+                        o += std::to_string(toff(dv.time_at(i)));
+                    }
+                }
+                catch (const std::exception &) {}
                 o += "],\"size\":";
                 o += std::to_string(w.size());
+                // tick-count windows only: a duration window has no size layout
+                long long per = -1, minp = -1;
+                try { per = (long long)w.period(); minp = (long long)w.min_period(); }
+                catch (const std::exception &) {}
                 o += ",\"period\":";
-                o += std::to_string(w.period());
+                o += std::to_string(per);
                 o += ",\"minp\":";
-                o += std::to_string(w.min_period());
+                o += std::to_string(minp);
                 break;
             }
         }
@@ -389,6 +404,16 @@ namespace hv
         static constexpr auto name = "c_mirror";
         HV_LIFECYCLE
         static void eval(In<"a", Sch, InputValidity::Unchecked> a, Scalar<"uid", Int> uid, NodeView nv, DateTime now)
+        {
+            log_dump("c.mirror", uid.value(), nv, now, a.base());
+        }
+    };
+    // mirror over a schema that has no compile-time spelling (duration windows): generic input, same dump
+    struct CMirrorAny
+    {
+        static constexpr auto name = "c_mirror_any";
+        HV_LIFECYCLE
+        static void eval(In<"a", TsVar<"W">, InputValidity::Unchecked> a, Scalar<"uid", Int> uid, NodeView nv, DateTime now)
         {
             log_dump("c.mirror", uid.value(), nv, now, a.base());
         }
